@@ -54,6 +54,7 @@ class DT:
 def dtype(x):
     return DT(x)
 result_type_real = _rnp.result_type
+pi = _rnp.pi
 iinfo = _rnp.iinfo; finfo = _rnp.finfo
 
 def result_type(*a):
@@ -1003,8 +1004,13 @@ def logical_and(a, b): return _binop(a, b, lambda x, y: core.And(x, y), cmp=True
 def logical_or(a, b): return _binop(a, b, lambda x, y: core.Or(x, y), cmp=True)
 def logical_not(a): return _ew(a, core.Not, _rnp.dtype('bool'))
 def where(c, a=None, b=None):
-    if a is None: raise NeedsContract('where(cond) index extraction')
-    c = asarray(c); sh = [c.shape]
+    c = asarray(c)
+    if a is None:
+        # index extraction: one path per outcome of the mask (each element is decided on the current path)
+        if c.ndim != 1 or not isinstance(c.shape[0], int): raise NeedsContract('where(cond) on a mask that is not 1-D of concrete length')
+        idx = [k for k in range(c.shape[0]) if builtins.bool(c.at(k))]
+        return (array(idx, dtype='int64') if idx else zeros((0,), dtype='int64'),)
+    sh = [c.shape]
     for v in (a, b):
         if isinstance(v, ndarray): sh.append(v.shape)
     shape = broadcast_shapes(*sh)
@@ -1029,6 +1035,12 @@ def round(x, decimals=0): raise NeedsContract('round')
 
 # --------------------------------------------------------------------------- structural functions
 def swapaxes(a, x, y): return a.swapaxes(x, y)
+def moveaxis(a, source, destination):
+    a = asarray(a)
+    if not isinstance(source, int) or not isinstance(destination, int): raise NeedsContract('moveaxis with several axes')
+    src = source % a.ndim; dst = destination % a.ndim
+    order = [k for k in range(a.ndim) if k != src]; order.insert(dst, src)
+    return a.transpose(tuple(order))
 def transpose(a, axes=None): return a.transpose(axes) if axes is not None else a.transpose()
 def squeeze(a, axis=None): return a.squeeze(axis)
 def reshape(a, shape): return a.reshape(shape)
@@ -1071,7 +1083,20 @@ def vstack(arrs):
 def append(a, b, axis=None):
     if axis is None: raise NeedsContract('append without axis')
     return concatenate([a, b], axis=axis)
-def tile(a, reps): raise NeedsContract('tile')
+def tile(a, reps):
+    a = asarray(a); reps = tuple(reps) if isinstance(reps, (tuple, list)) else (reps,)
+    d = builtins.max(len(reps), a.ndim); reps = (1,) * (d - len(reps)) + reps; ash = (1,) * (d - a.ndim) + tuple(a.shape)
+    if not builtins.all(isinstance(x, int) for x in ash): raise NeedsContract('tile of a symbolic shape')
+    f = a.snapshot(); nd = a.ndim
+    return ndarray.fresh(tuple(r * n for r, n in zip(reps, ash)), lambda i: f(tuple(k % n if isinstance(k, int) else k for k, n in zip(i, ash))[d - nd:]) if builtins.all(isinstance(k, int) or n == 1 for k, n in zip(i, ash)) else _tile_sym(f, i, ash, d - nd), a.dtype)
+def _tile_sym(f, i, ash, skip):
+    # a symbolic position along a tiled axis: only axes of source extent 1 (pure repetition) are supported
+    out = []
+    for k, n in zip(i, ash):
+        if isinstance(k, int): out.append(k % n)
+        elif n == 1: out.append(0)
+        else: raise NeedsContract('symbolic position in a tiled axis')
+    return f(tuple(out)[skip:])
 def take(a, idx, axis=None):
     if axis is not None: raise NeedsContract('take with axis')
     flat = a.reshape(-1) if a.ndim != 1 else a
